@@ -13,6 +13,9 @@ reaches the rules in the same shape:
   K4  x += [e] / x.extend([e])    ->  x.append(e)            (statement)
       x.extend(E)                 ->  x += E                 (statement)
   K5  for i, v in enumerate(xs, start=0) -> enumerate(xs)
+  K7  a, b = x, y                 ->  a = x; b = y       (names only, no
+                                      target read on the right-hand side)
+  K8  a = b = CONST               ->  a = CONST; b = CONST
 
 The rewrites are conservative: K1/K2 require that the accumulator is
 initialised empty immediately before the loop (statements in between must not
@@ -355,6 +358,43 @@ class Canon(ast.NodeTransformer):
             node.test = node.test.operand
             node.body, node.orelse = node.orelse, node.body
             self.applied["K3"] += 1
+        return node
+
+    def visit_Assign(self, node):
+        self.generic_visit(node)
+        # K7  a, b = x, y  ->  a = x; b = y   (no target read on the right)
+        if len(node.targets) == 1 and isinstance(
+                node.targets[0], (ast.Tuple, ast.List)) and isinstance(
+                    node.value, (ast.Tuple, ast.List)) and len(
+                        node.targets[0].elts) == len(node.value.elts) and \
+                not any(isinstance(e, ast.Starred)
+                        for e in node.targets[0].elts + node.value.elts):
+            tnames = set()
+            for t in node.targets[0].elts:
+                tnames |= _names(t)
+            vnames = set()
+            for v in node.value.elts:
+                vnames |= _names(v)
+            if not (tnames & vnames) and all(
+                    isinstance(t, ast.Name) for t in node.targets[0].elts):
+                out = []
+                for t, v in zip(node.targets[0].elts, node.value.elts):
+                    a = ast.Assign(targets=[t], value=v)
+                    ast.copy_location(a, node)
+                    out.append(a)
+                self.applied["K7"] = self.applied.get("K7", 0) + 1
+                return out
+        # K8  a = b = CONST  ->  a = CONST; b = CONST
+        if len(node.targets) > 1 and isinstance(
+                node.value, ast.Constant) and all(
+                    isinstance(t, ast.Name) for t in node.targets):
+            out = []
+            for t in node.targets:
+                a = ast.Assign(targets=[t], value=_copy(node.value))
+                ast.copy_location(a, node)
+                out.append(a)
+            self.applied["K8"] = self.applied.get("K8", 0) + 1
+            return out
         return node
 
     def visit_AugAssign(self, node):
